@@ -4,13 +4,14 @@ From Coq Require Import List NArith ZArith Bool.
 From T4V Require Import C11.Model.
 Import ListNotations.
 
-(* E ::= +-s | +-s.k | E E | E : E | #( E ) | #n *)
+(* E ::= +-s | +-s.k | E E | E : E | #( E ) | #n | ( E ) *)
 Inductive mexpr :=
 | MLit (z : Z) (sub : option N)
 | MAnd (a b : mexpr)
 | MOr (a b : mexpr)
 | MNot (e : mexpr)
-| MNotCell (n : N).
+| MNotCell (n : N)
+| MParen (e : mexpr).             (* redundant parentheses *)
 
 (* a point off the surfaces is, for the Boolean layer, its sense assignment:
    [sg s k = true] iff the point has positive sense w.r.t. surface s (facet k) *)
@@ -27,6 +28,7 @@ Fixpoint mden (cd : N -> bool) (sg : sense) (e : mexpr) : bool :=
   | MOr a b => mden cd sg a || mden cd sg b
   | MNot e => negb (mden cd sg e)
   | MNotCell n => negb (cd n)
+  | MParen e => mden cd sg e
   end.
 
 (* denotation of what the parser returns / what complement elimination returns *)
@@ -48,6 +50,7 @@ Fixpoint toks (lvl : nat) (e : mexpr) : list token :=
   | MLit z sub => [TLit z sub]
   | MNotCell n => [THashN n]
   | MNot e => THashP :: toks 0 e ++ [TRP]
+  | MParen e => TLP :: toks 0 e ++ [TRP]
   | MAnd a b => paren (Nat.ltb 1 lvl) (toks 1 a ++ toks 2 b)
   | MOr a b => paren (Nat.ltb 0 lvl) (toks 0 a ++ TColon :: toks 1 b)
   end.
@@ -58,7 +61,7 @@ Fixpoint cell_free (e : mexpr) : bool :=
   match e with
   | MLit _ _ => true
   | MAnd a b | MOr a b => cell_free a && cell_free b
-  | MNot e => cell_free e
+  | MNot e | MParen e => cell_free e
   | MNotCell _ => false
   end.
 Fixpoint no_cell_under_not (e : mexpr) : bool :=
@@ -66,12 +69,13 @@ Fixpoint no_cell_under_not (e : mexpr) : bool :=
   | MLit _ _ | MNotCell _ => true
   | MAnd a b | MOr a b => no_cell_under_not a && no_cell_under_not b
   | MNot e => cell_free e
+  | MParen e => no_cell_under_not e
   end.
 
 (* first token, at intersection level, is a complement *)
 Fixpoint starts_hash (e : mexpr) : bool :=
   match e with
-  | MLit _ _ => false
+  | MLit _ _ | MParen _ => false
   | MNot _ | MNotCell _ => true
   | MAnd a _ => match a with MOr _ _ => false | _ => starts_hash a end
   | MOr _ _ => false     (* parenthesised at this level *)
@@ -82,14 +86,14 @@ Fixpoint no_colon_hash (e : mexpr) : bool :=
   | MLit _ _ | MNotCell _ => true
   | MAnd a b => no_colon_hash a && no_colon_hash b
   | MOr a b => no_colon_hash a && no_colon_hash b && negb (starts_hash b)
-  | MNot e => no_colon_hash e
+  | MNot e | MParen e => no_colon_hash e
   end.
 
 Fixpoint nonzero (e : mexpr) : bool :=
   match e with
   | MLit z _ => negb (z =? 0)%Z
   | MAnd a b | MOr a b => nonzero a && nonzero b
-  | MNot e => nonzero e
+  | MNot e | MParen e => nonzero e
   | MNotCell _ => true
   end.
 
@@ -203,6 +207,6 @@ Fixpoint facets_ok (e : mexpr) : bool :=
   match e with
   | MLit _ sub => match sub with Some k => (k <? 10)%N | None => true end
   | MAnd a b | MOr a b => facets_ok a && facets_ok b
-  | MNot e => facets_ok e
+  | MNot e | MParen e => facets_ok e
   | MNotCell _ => true
   end.
